@@ -57,7 +57,7 @@ def f32rows(rows):
 class C08(Property):
     ID = "C08"
     SESSIONS = ["s0", "s1"]
-    RUNS = {"quick": (500, 200), "thorough": (12000, 4000)}
+    RUNS = {"quick": (5000, 2000), "thorough": (120000, 40000)}
 
     def config(self, rng, tier, faulty):
         cfg = {
